@@ -24,11 +24,40 @@
   The result is `rwLearn` on the created events filtered on the token level
   (an empty outcome list read back as the outcome `""`).
 
-  partial: still NOT part of the one statement
-  * the activation stage (C12) — (5) stays a separate interface theorem, and
-    the counting stage (4) is a side branch, not composed after the filter;
-  * the other learners (`ndl.ndl` threading/OpenMP, `wh`): `pipeline` ends in
-    `dict_ndl`; their equality with the same specification is C01/C02/C08;
+  Behind the filtered file (third part, lemmas in PyndlProofs/Pipeline2.lean),
+  each starting from the same written file as `writer_filter_reader_learner`:
+  (A) `pipeline_counts` — `cues_outcomes`, every number of processes;
+  (B) `pipeline_ndl` — the `ndl.ndl` model of C01 (both methods) = `rwLearn` at
+  every pair of names, and `pipeline_ndl_dict_agree` — it agrees with
+  `dict_ndl` at every pair of names; (C) `pipeline_activation` (dict path, any
+  cue list; the training events under the learner's duplicate policy),
+  `pipeline_activation_matrix` (matrix path, training events),
+  `pipeline_next_step` (interface (5) for the weights the pipeline produced).
+  `pipeline_all` is the conjunction with the creator in front and shared
+  witnesses: one filtered file, its counts, both learners, both activation
+  paths, and the labels of the matrix = the names with a positive count.
+
+  partial: still NOT part of the assembled statements
+  * `ndl.ndl` enters as `ndlModel` (C01): trained from scratch (`weights=None`;
+    continuing from given weights is C03 alone), constant `α` (hence
+    `pipeline_ndl_dict_agree` / `pipeline_all` are for constant `α`; the
+    `dict_ndl` statements allow a cue-dependent `α`), within the 32-bit limits
+    `Fits32` (a precondition: outside them the real function raises), the parts
+    of a method learned one after the other — that the real threads / OpenMP
+    schedule give the same matrix is C01/C02 (disjoint rows), not repeated
+    here.  Its internal count is `countNames` on the parsed events; that the
+    counting stage on the file reports exactly these names is part of
+    `pipeline_all`; the ORDER of the labels is first occurrence in `ndlModel`
+    (the real `Counter` key order for `n_jobs > 1` may differ; the weight
+    statements here read the matrix by name, `LW.get`).  The two
+    representations of `str` (`List Char` in the text model, `String` in the
+    `ndl.ndl` / activation models) are related by `String.ofList` (a bijection).
+  * the `wh` learners (C08) are not composed at all.
+  * activation: the matrix path is composed for the training events only (all
+    their cues are labels); for other event files a missing cue raises
+    `KeyError` / is skipped — C12 `act_missing` alone.  The multi-process split
+    of `activation()` (C12 `events_independent`) and the `xarray` wrapping of
+    the result are not composed.
   * the byte level: gzip and UTF-8 are identity (trusted base of C07), and the
     text `create_event_file` writes is taken to be `renderFile false` of the
     created events (header and line format are the extracted literals,
@@ -47,6 +76,7 @@ import PyndlProofs.Filter
 import PyndlProofs.Dict
 import PyndlProofs.Activation
 import PyndlProofs.Pipeline
+import PyndlProofs.Pipeline2
 import PyndlModel.Generated
 
 namespace Pyndl.C15
@@ -338,5 +368,332 @@ example :
       = .ok (.keep ["#a".toList, "a#".toList, "b#".toList]) ∧
     Filter.selectRule (⟨none, some ["b".toList], none⟩ : Filter.SideArgs Char)
       = .ok (.remove ["b".toList]) := ⟨rfl, rfl⟩
+
+/-! ## the stages behind the filtered file (lemmas: PyndlProofs/Pipeline2.lean)
+
+Two representations of a Python `str` meet: the text model has
+`Str = List Char`, the models of `ndl.ndl` and `activation()` have `String`.
+`Pipeline.toS` is `String.ofList` on every token of an event, `Pipeline.wdToS`
+the same on the keys of a weight dict; `String.ofList` is a bijection. -/
+
+/-- the change of representation loses nothing. -/
+theorem toS_injective : Function.Injective Pipeline.toS := Pipeline.toS_injective
+
+/-- **(A) writer → filter → counting.**  Under the hypotheses of
+    `writer_filter_reader_learner` (the duplicate policy plays no role), for
+    every number of counting processes `n ≥ 1`, `cues_outcomes` on the filtered
+    file `unlines out` returns `n_events` = the number of token-level filtered
+    events, and for every name `x` the number of its occurrences as a cue /
+    as an outcome in those events as `events_from_file` reads them (an empty
+    outcome list counting as one occurrence of the outcome `""`). -/
+theorem pipeline_counts
+    (ca oa : Filter.SideArgs Char) (rc ro : Filter.Rule Char)
+    (hc : Filter.selectRule ca = .ok rc) (ho : Filter.selectRule oa = .ok ro)
+    (hrc : Pipeline.RuleImgWf rc) (hro : Pipeline.RuleImgWf ro) (hnil : Pipeline.RuleNilSafe ro)
+    (chunk : Nat) (hn : 1 ≤ chunk)
+    (es : List TEvent) (h : ∀ e ∈ es, C07.WfEvent e) (n : Nat) (hn1 : 1 ≤ n) :
+    ∃ out r,
+      Filter.filterEventFile Filter.colSep Filter.tokSep ca oa chunk
+          (Pipeline.readLines (renderFile false es)) = .ok out ∧
+      cuesOutcomes n (unlines out) = some r ∧
+      r.n = ((es.filterMap (Pipeline.filterEvent rc ro)).length : Int) ∧
+      (∀ x, cGet r.cues x
+          = (((es.filterMap (Pipeline.filterEvent rc ro)).map normalise).map (fun e => e.cues.count x)).sum) ∧
+      (∀ x, cGet r.outcomes x
+          = (((es.filterMap (Pipeline.filterEvent rc ro)).map normalise).map
+              (fun e => e.outcomes.count x)).sum) :=
+  Pipeline.pipeline_counts ca oa rc ro hc ho hrc hro hnil chunk hn es h n hn1
+
+/-- non-vacuity of (A): the filtered file of the example above, counted by 3
+    processes (one more than there are events): 2 events, the cue `a#` once,
+    `b` (filtered out) never, the outcome `a` once, the outcome `""` once. -/
+example :
+    (cuesOutcomes 3 (unlines ["cues\toutcomes".toList, "#a_a#\ta".toList, "b#\t".toList])).map
+        (fun r => (r.n, cGet r.cues "a#".toList, cGet r.cues "b".toList,
+                   cGet r.outcomes "a".toList, cGet r.outcomes []))
+      = some (2, 1, 0, 1, 1) := by decide +kernel
+
+/-- **(B) writer → filter → reader → `ndl.ndl`.**  Under the hypotheses of
+    `writer_filter_reader_learner` (`hp` for `cfg.policy`) and those of C01
+    `ndl_eq_spec` (`hper`: `events_per_temporary_file ≥ 2`, `hjob`:
+    `n_outcomes_per_job ≥ 1`, `hfit`: the 32-bit limits of the chunk format —
+    outside them the real function raises), with the magic number / version
+    extracted from the source: the model of `ndl.ndl` (both methods; counting,
+    id maps, duplicate policy on ids, binary chunk files, kernels, labelling)
+    on the events parsed from the filtered file succeeds, reports the number
+    of parsed events, and the labelled matrix is at EVERY pair of names the
+    Rescorla–Wagner specification on the policy-processed filtered events
+    (for `String` names on `es'.map toS`; through `String.ofList` for the
+    `List Char` names on `es'` itself — the right-hand side of `pipeline`). -/
+theorem pipeline_ndl {R : Type} [CommRing R]
+    (cfg : NdlCfg) (hper : 2 ≤ cfg.perFile) (hjob : 1 ≤ cfg.perJob) (alpha β₁ β₂ lam : R)
+    (ca oa : Filter.SideArgs Char) (rc ro : Filter.Rule Char)
+    (hc : Filter.selectRule ca = .ok rc) (ho : Filter.selectRule oa = .ok ro)
+    (hrc : Pipeline.RuleImgWf rc) (hro : Pipeline.RuleImgWf ro) (hnil : Pipeline.RuleNilSafe ro)
+    (chunk : Nat) (hn : 1 ≤ chunk)
+    (es es' : List TEvent) (h : ∀ e ∈ es, C07.WfEvent e)
+    (hp : applyPolicyAll cfg.policy ((es.filterMap (Pipeline.filterEvent rc ro)).map normalise) = some es')
+    (hfit : Fits32 (((es.filterMap (Pipeline.filterEvent rc ro)).map normalise).map Pipeline.toS)) :
+    ∃ out parsed w,
+      Filter.filterEventFile Filter.colSep Filter.tokSep ca oa chunk
+          (Pipeline.readLines (renderFile false es)) = .ok out ∧
+      parseFile 0 1 (unlines out) = some parsed ∧
+      parsed = (es.filterMap (Pipeline.filterEvent rc ro)).map normalise ∧
+      ndlModel Generated.pyMagic Generated.pyVersion cfg alpha β₁ β₂ lam none (parsed.map Pipeline.toS)
+        = .ok (w, parsed.length) ∧
+      (∀ o c : String, w.get o c
+          = rwLearn (fun _ => alpha) β₁ β₂ lam (fun _ _ => (0 : R)) (es'.map Pipeline.toS) o c) ∧
+      (∀ o c : Str, w.get (String.ofList o) (String.ofList c)
+          = rwLearn (fun _ => alpha) β₁ β₂ lam (wdAbs ([] : WDict Str Str R)) es' o c) :=
+  Pipeline.pipeline_ndl Generated.pyMagic Generated.pyVersion (by decide) (by decide) cfg hper hjob
+    alpha β₁ β₂ lam ca oa rc ro hc ho hrc hro hnil chunk hn es es' h hp hfit
+
+/-- **(B′) `ndl.ndl` = `dict_ndl` behind the filter.**  On the events parsed
+    from the same filtered file both learners succeed and the labelled matrix
+    and the weight dict denote the same function of (outcome name, cue name):
+    for the `List Char` names through `String.ofList`, and for ALL `String`
+    names through `String.toList`. -/
+theorem pipeline_ndl_dict_agree {R : Type} [CommRing R]
+    (cfg : NdlCfg) (hper : 2 ≤ cfg.perFile) (hjob : 1 ≤ cfg.perJob) (alpha β₁ β₂ lam : R)
+    (ca oa : Filter.SideArgs Char) (rc ro : Filter.Rule Char)
+    (hc : Filter.selectRule ca = .ok rc) (ho : Filter.selectRule oa = .ok ro)
+    (hrc : Pipeline.RuleImgWf rc) (hro : Pipeline.RuleImgWf ro) (hnil : Pipeline.RuleNilSafe ro)
+    (chunk : Nat) (hn : 1 ≤ chunk)
+    (es es' : List TEvent) (h : ∀ e ∈ es, C07.WfEvent e)
+    (hp : applyPolicyAll cfg.policy ((es.filterMap (Pipeline.filterEvent rc ro)).map normalise) = some es')
+    (hfit : Fits32 (((es.filterMap (Pipeline.filterEvent rc ro)).map normalise).map Pipeline.toS)) :
+    ∃ out parsed W w,
+      Filter.filterEventFile Filter.colSep Filter.tokSep ca oa chunk
+          (Pipeline.readLines (renderFile false es)) = .ok out ∧
+      parseFile 0 1 (unlines out) = some parsed ∧
+      parsed = (es.filterMap (Pipeline.filterEvent rc ro)).map normalise ∧
+      dictNdl cfg.policy (fun _ => alpha) β₁ β₂ lam [] parsed = some W ∧
+      ndlModel Generated.pyMagic Generated.pyVersion cfg alpha β₁ β₂ lam none (parsed.map Pipeline.toS)
+        = .ok (w, parsed.length) ∧
+      (∀ o c : Str, w.get (String.ofList o) (String.ofList c) = wdAbs W o c) ∧
+      (∀ o c : String, w.get o c = wdAbs W o.toList c.toList) :=
+  Pipeline.pipeline_ndl_dict_agree Generated.pyMagic Generated.pyVersion (by decide) (by decide) cfg hper hjob
+    alpha β₁ β₂ lam ca oa rc ro hc ho hrc hro hnil chunk hn es es' h hp hfit
+
+/-- example data: the events parsed from the filtered file of the example after
+    `pipeline` (`#a_a# → a`, `b# → ""`). -/
+def exampleParsed : List TEvent := [⟨["#a".toList, "a#".toList], ["a".toList]⟩, ⟨["b#".toList], [[]]⟩]
+
+/-- non-vacuity of (B), (B′) on the events parsed in the example above
+    (`#a_a# → a`, `b# → ""`), policy `None`, threading, one outcome per job, two
+    events per temporary file, ℤ with `α = 1, β₁ = 2, β₂ = 3, λ = 5`: the policy
+    accepts the events unchanged, the 32-bit limits hold, `ndl.ndl` returns the
+    labels in order of first occurrence, 2 events, and weights that are not
+    trivial; `dict_ndl` returns the same weights. -/
+example :
+    applyPolicyAll .error exampleParsed = some exampleParsed ∧
+    (match ndlModel Generated.pyMagic Generated.pyVersion ⟨.error, .threading, 1, 2⟩ (1 : ℤ) 2 3 5 none
+        (exampleParsed.map Pipeline.toS) with
+     | .ok (w, k) => some (w.outcomes, w.cues, w.get "a" "a#", w.get "" "b#", w.get "a" "b#", k)
+     | .error _ => none)
+      = some (["a", ""], ["#a", "a#", "b#"], 10, 10, 0, 2) ∧
+    (dictNdl .error (fun _ => (1 : ℤ)) 2 3 5 [] exampleParsed).map
+        (fun W => (wdAbs W "a".toList "a#".toList, wdAbs W [] "b#".toList, wdAbs W "a".toList "b#".toList))
+      = some (10, 10, 0) :=
+  ⟨by decide +kernel, by decide +kernel, by decide +kernel⟩
+
+/-- … and the 32-bit limits for these events. -/
+example :
+    Fits32 (exampleParsed.map Pipeline.toS) :=
+  ⟨by decide +kernel, by decide +kernel, by decide +kernel, by decide +kernel⟩
+
+/-- **(C) … → `dict_ndl` → `activation()`, dict path.**  Under the hypotheses
+    of `writer_filter_reader_learner`, on the weight dict `W` the learner
+    returns for the filtered file (handed to `activation()` with `String` keys,
+    `Pipeline.wdToS`):
+
+    * for EVERY outcome `o` and EVERY cue list `cs` the dict path returns the
+      sum over the cue occurrences of the Rescorla–Wagner weights `rwLearn` on
+      the policy-processed filtered events (C12 `act_dict_eq_sum` composed with
+      the learner equation; a `defaultdict` row never raises);
+    * for every parsed (training) event `e`, `activation()` under the learner's
+      own `remove_duplicates` does not raise and uses exactly the cues of the
+      policy-processed event `e'` (C12 `act_cues_policy`), so its value for
+      `e'` is the sum `sumOver (rwLearn … o) e'.cues` of interface (5). -/
+theorem pipeline_activation {R : Type} [CommRing R] (p : DupPolicy)
+    (α : Str → R) (β₁ β₂ lam : R)
+    (ca oa : Filter.SideArgs Char) (rc ro : Filter.Rule Char)
+    (hc : Filter.selectRule ca = .ok rc) (ho : Filter.selectRule oa = .ok ro)
+    (hrc : Pipeline.RuleImgWf rc) (hro : Pipeline.RuleImgWf ro) (hnil : Pipeline.RuleNilSafe ro)
+    (chunk : Nat) (hn : 1 ≤ chunk)
+    (es es' : List TEvent) (h : ∀ e ∈ es, C07.WfEvent e)
+    (hp : applyPolicyAll p ((es.filterMap (Pipeline.filterEvent rc ro)).map normalise) = some es') :
+    ∃ out parsed W,
+      Filter.filterEventFile Filter.colSep Filter.tokSep ca oa chunk
+          (Pipeline.readLines (renderFile false es)) = .ok out ∧
+      parseFile 0 1 (unlines out) = some parsed ∧
+      parsed = (es.filterMap (Pipeline.filterEvent rc ro)).map normalise ∧
+      dictNdl p α β₁ β₂ lam [] parsed = some W ∧
+      (∀ (o : Str) (cs : List Str),
+        dictRowAct false (wdRow (Pipeline.wdToS W) (String.ofList o)) (cs.map String.ofList)
+          = .ok (sumOver (rwLearn α β₁ β₂ lam (wdAbs ([] : WDict Str Str R)) es' o) cs)) ∧
+      (∀ e ∈ parsed, ∃ e' ∈ es', applyPolicy p e = some e' ∧
+        actCues p (Pipeline.toS e).cues = .ok (Pipeline.toS e').cues ∧
+        ∀ o : Str, dictRowAct false (wdRow (Pipeline.wdToS W) (String.ofList o)) (Pipeline.toS e').cues
+          = .ok (sumOver (rwLearn α β₁ β₂ lam (wdAbs ([] : WDict Str Str R)) es' o) e'.cues)) :=
+  Pipeline.pipeline_activation_dict p α β₁ β₂ lam ca oa rc ro hc ho hrc hro hnil chunk hn es es' h hp
+
+/-- **(C) … → `ndl.ndl` → `activation()`, matrix path.**  Under the hypotheses
+    of `pipeline_ndl`, on the labelled matrix `w` that `ndl.ndl` returns for the
+    filtered file: the outcome labels are duplicate free, and for every parsed
+    (training) event, under the learner's own `remove_duplicates`, with or
+    without `ignore_missing_cues`: the duplicate check does not raise, every
+    cue of the policy-processed event `e'` is a label (no `KeyError`, nothing
+    skipped), and entry `i` of the event's activation column is the sum over
+    `e'.cues` of the Rescorla–Wagner weights of the outcome labelled `i`
+    (C12 `act_eq_sum` composed with `pipeline_ndl`). -/
+theorem pipeline_activation_matrix {R : Type} [CommRing R]
+    (cfg : NdlCfg) (hper : 2 ≤ cfg.perFile) (hjob : 1 ≤ cfg.perJob) (alpha β₁ β₂ lam : R)
+    (ca oa : Filter.SideArgs Char) (rc ro : Filter.Rule Char)
+    (hc : Filter.selectRule ca = .ok rc) (ho : Filter.selectRule oa = .ok ro)
+    (hrc : Pipeline.RuleImgWf rc) (hro : Pipeline.RuleImgWf ro) (hnil : Pipeline.RuleNilSafe ro)
+    (chunk : Nat) (hn : 1 ≤ chunk)
+    (es es' : List TEvent) (h : ∀ e ∈ es, C07.WfEvent e)
+    (hp : applyPolicyAll cfg.policy ((es.filterMap (Pipeline.filterEvent rc ro)).map normalise) = some es')
+    (hfit : Fits32 (((es.filterMap (Pipeline.filterEvent rc ro)).map normalise).map Pipeline.toS))
+    (ig : Bool) :
+    ∃ out parsed w,
+      Filter.filterEventFile Filter.colSep Filter.tokSep ca oa chunk
+          (Pipeline.readLines (renderFile false es)) = .ok out ∧
+      parseFile 0 1 (unlines out) = some parsed ∧
+      parsed = (es.filterMap (Pipeline.filterEvent rc ro)).map normalise ∧
+      ndlModel Generated.pyMagic Generated.pyVersion cfg alpha β₁ β₂ lam none (parsed.map Pipeline.toS)
+        = .ok (w, parsed.length) ∧
+      w.outcomes.Nodup ∧
+      (∀ e ∈ parsed, ∃ e' ∈ es', applyPolicy cfg.policy e = some e' ∧
+        actCues cfg.policy (Pipeline.toS e).cues = .ok (Pipeline.toS e').cues ∧
+        cueIndices ig w.cues (Pipeline.toS e').cues
+          = .ok ((Pipeline.toS e').cues.map (w.cues.idxOf ·)) ∧
+        ∀ (i : Nat) (hi : i < w.outcomes.length),
+          (actColumn w ((Pipeline.toS e').cues.map (w.cues.idxOf ·))).getD i 0
+            = sumOver (rwLearn (fun _ => alpha) β₁ β₂ lam (wdAbs ([] : WDict Str Str R)) es'
+                (w.outcomes[i]).toList) e'.cues) :=
+  Pipeline.pipeline_activation_matrix Generated.pyMagic Generated.pyVersion (by decide) (by decide) cfg hper hjob
+    alpha β₁ β₂ lam ca oa rc ro hc ho hrc hro hnil chunk hn es es' h hp hfit ig
+
+/-- **(C) interface (5) at the end of the pipeline.**
+    `learner_activation_consistent` for the weights the pipeline produced: if
+    learning is continued with one further event `e` on the dict `W` that
+    `dict_ndl` returned for the filtered file (`wdAbs W = rwLearn … es'`), each
+    weight moves by `multiplicity · α · β · (target − A)` where `A` is the value
+    the dict path of `activation()` returns for `e`'s cues on that very dict. -/
+theorem pipeline_next_step {R : Type} [CommRing R] (p : DupPolicy)
+    (α : Str → R) (β₁ β₂ lam : R)
+    (ca oa : Filter.SideArgs Char) (rc ro : Filter.Rule Char)
+    (hc : Filter.selectRule ca = .ok rc) (ho : Filter.selectRule oa = .ok ro)
+    (hrc : Pipeline.RuleImgWf rc) (hro : Pipeline.RuleImgWf ro) (hnil : Pipeline.RuleNilSafe ro)
+    (chunk : Nat) (hn : 1 ≤ chunk)
+    (es es' : List TEvent) (h : ∀ e ∈ es, C07.WfEvent e)
+    (hp : applyPolicyAll p ((es.filterMap (Pipeline.filterEvent rc ro)).map normalise) = some es') :
+    ∃ out parsed W,
+      Filter.filterEventFile Filter.colSep Filter.tokSep ca oa chunk
+          (Pipeline.readLines (renderFile false es)) = .ok out ∧
+      parseFile 0 1 (unlines out) = some parsed ∧
+      parsed = (es.filterMap (Pipeline.filterEvent rc ro)).map normalise ∧
+      dictNdl p α β₁ β₂ lam [] parsed = some W ∧
+      wdAbs W = rwLearn α β₁ β₂ lam (wdAbs ([] : WDict Str Str R)) es' ∧
+      ∀ (e : TEvent) (o c : Str), ∃ A,
+        dictRowAct false (wdRow (Pipeline.wdToS W) (String.ofList o)) (Pipeline.toS e).cues = .ok A ∧
+        rwStep α β₁ β₂ lam (wdAbs W) e o c - wdAbs W o c
+          = (e.cues.count c : R) * (α c *
+              (if o ∈ e.outcomes then β₁ * (lam - A) else β₂ * (0 - A))) :=
+  Pipeline.pipeline_next_step p α β₁ β₂ lam ca oa rc ro hc ho hrc hro hnil chunk hn es es' h hp
+
+/-- non-vacuity of (C) on the same parsed events and weights (ℤ): the dict
+    path on the learner's dict and the matrix path on the learner's matrix
+    return, for the two training events, the activations `20, 0` of the outcome
+    `a` and `0, 10` of the outcome `""`; under `remove_duplicates=None` the
+    repeated cue of `a#_a#` raises, under `True` it counts once. -/
+example :
+    (dictNdl .error (fun _ => (1 : ℤ)) 2 3 5 [] exampleParsed).map (fun W =>
+        (dictRowAct false (wdRow (Pipeline.wdToS W) "a") ["#a", "a#"],
+         dictRowAct false (wdRow (Pipeline.wdToS W) "a") ["b#"],
+         dictRowAct false (wdRow (Pipeline.wdToS W) "") ["b#"]))
+      = some (.ok 20, .ok 0, .ok 10) ∧
+    (match ndlModel Generated.pyMagic Generated.pyVersion ⟨.error, .threading, 1, 2⟩ (1 : ℤ) 2 3 5 none
+        (exampleParsed.map Pipeline.toS) with
+     | .ok (w, _) => some (activationMatrix .error false w ((exampleParsed.map Pipeline.toS).map (·.cues)),
+                           activationMatrix .error false w [["a#", "a#"]],
+                           activationMatrix .dedup false w [["a#", "a#"]])
+     | .error _ => none)
+      = some (.ok [[20, 0], [0, 10]], .error .value, .ok [[10, 0]]) :=
+  ⟨by decide +kernel, by decide +kernel⟩
+
+/-- **everything behind one filtered file.**  corpus lines →
+    `create_event_file` → event file → `filter_event_file` → ONE event file
+    `unlines out` → { `cues_outcomes`, `events_from_file` → `dict_ndl`,
+    `events_from_file` → `ndl.ndl`, `activation()` on both results }, with
+    shared witnesses: the conjunction of `pipeline`, `pipeline_counts`,
+    `pipeline_ndl_dict_agree`, `pipeline_activation`,
+    `pipeline_activation_matrix` (`α` constant, as `ndl.ndl` has it), and
+
+    * the labels of the `ndl.ndl` matrix are duplicate free and are exactly the
+      names to which the counting stage assigns a positive count;
+    * the whole matrix path `activationMatrix` over the training events
+      succeeds, one column per policy-processed event.
+
+    `hes` names the created events; the other hypotheses are those of
+    `pipeline` (creation, filter, policy) and `pipeline_ndl` (`hper`, `hjob`,
+    `hfit`); `n ≥ 1` counting processes; `ig` = `ignore_missing_cues`. -/
+theorem pipeline_all {R : Type} [CommRing R]
+    (cfg : NdlCfg) (hper : 2 ≤ cfg.perFile) (hjob : 1 ≤ cfg.perJob) (alpha β₁ β₂ lam : R)
+    (t : Create.Tables) (o : Create.Options)
+    (hng : ∀ n, o.cue = .ngrams n → 1 ≤ n ∧ n ≤ 3) (rawLines : List (List Char))
+    (hraw : ∀ raw ∈ rawLines, '\n' ∉ raw ∧ '\r' ∉ raw)
+    (hlower : o.lowerCase = true → ∀ p ∈ t.lower, '\n' ∉ p.2 ∧ '\r' ∉ p.2)
+    (ca oa : Filter.SideArgs Char) (rc ro : Filter.Rule Char)
+    (hc : Filter.selectRule ca = .ok rc) (ho : Filter.selectRule oa = .ok ro)
+    (hrc : Pipeline.RuleImgWf rc) (hro : Pipeline.RuleImgWf ro) (hnil : Pipeline.RuleNilSafe ro)
+    (chunk : Nat) (hn : 1 ≤ chunk)
+    (es es' : List TEvent) (hes : es = (Create.createEvents t o rawLines).map Pipeline.toTEvent)
+    (hp : applyPolicyAll cfg.policy ((es.filterMap (Pipeline.filterEvent rc ro)).map normalise) = some es')
+    (hfit : Fits32 (((es.filterMap (Pipeline.filterEvent rc ro)).map normalise).map Pipeline.toS))
+    (n : Nat) (hn1 : 1 ≤ n) (ig : Bool) :
+    ∃ out parsed r W w,
+      Filter.filterEventFile Filter.colSep Filter.tokSep ca oa chunk
+          (Pipeline.readLines (renderFile false es)) = .ok out ∧
+      parseFile 0 1 (unlines out) = some parsed ∧
+      parsed = (es.filterMap (Pipeline.filterEvent rc ro)).map normalise ∧
+      cuesOutcomes n (unlines out) = some r ∧ r.n = (parsed.length : Int) ∧
+      (∀ x, cGet r.cues x = (parsed.map (fun e => e.cues.count x)).sum) ∧
+      (∀ x, cGet r.outcomes x = (parsed.map (fun e => e.outcomes.count x)).sum) ∧
+      dictNdl cfg.policy (fun _ => alpha) β₁ β₂ lam [] parsed = some W ∧
+      wdAbs W = rwLearn (fun _ => alpha) β₁ β₂ lam (wdAbs ([] : WDict Str Str R)) es' ∧
+      ndlModel Generated.pyMagic Generated.pyVersion cfg alpha β₁ β₂ lam none (parsed.map Pipeline.toS)
+        = .ok (w, parsed.length) ∧
+      (∀ o c : String, w.get o c = wdAbs W o.toList c.toList) ∧
+      w.cues.Nodup ∧ w.outcomes.Nodup ∧
+      (∀ x : Str, String.ofList x ∈ w.cues ↔ 0 < cGet r.cues x) ∧
+      (∀ x : Str, String.ofList x ∈ w.outcomes ↔ 0 < cGet r.outcomes x) ∧
+      activationMatrix cfg.policy ig w ((parsed.map Pipeline.toS).map (·.cues))
+        = .ok ((es'.map Pipeline.toS).map (fun e' => actColumn w (e'.cues.map (w.cues.idxOf ·)))) ∧
+      (∀ e ∈ parsed, ∃ e' ∈ es', applyPolicy cfg.policy e = some e' ∧
+        actCues cfg.policy (Pipeline.toS e).cues = .ok (Pipeline.toS e').cues ∧
+        (∀ o : Str, dictRowAct false (wdRow (Pipeline.wdToS W) (String.ofList o)) (Pipeline.toS e').cues
+          = .ok (sumOver (wdAbs W o) e'.cues)) ∧
+        ∀ (i : Nat) (hi : i < w.outcomes.length),
+          (actColumn w ((Pipeline.toS e').cues.map (w.cues.idxOf ·))).getD i 0
+            = sumOver (wdAbs W (w.outcomes[i]).toList) e'.cues) :=
+  Pipeline.pipeline_all Generated.pyMagic Generated.pyVersion (by decide) (by decide) cfg hper hjob
+    alpha β₁ β₂ lam t o hng rawLines hraw hlower ca oa rc ro hc ho hrc hro hnil chunk hn es es' hes hp hfit
+    n hn1 ig
+
+/-- non-vacuity of `pipeline_all`: for the corpus, options and filter
+    arguments of the example after `pipeline`, the created events filtered and
+    normalised are the `parsed` of the examples above, for which `hp` and `hfit`
+    were checked there. -/
+example :
+    let t : Create.Tables := ⟨[' '], []⟩
+    let o : Create.Options := ⟨.all, .line, .line, .ngrams 2, false, false⟩
+    let es := (Create.createEvents t o ["a".toList, "b".toList]).map Pipeline.toTEvent
+    ((es.filterMap (Pipeline.filterEvent (.keep ["#a".toList, "a#".toList, "b#".toList])
+        (.remove ["b".toList]))).map normalise)
+      = exampleParsed := by
+  decide +kernel
 
 end Pyndl.C15
